@@ -266,6 +266,7 @@ type Obligation struct {
 	Vacuity    bool   // a reachability (cover) query: expected sat
 	KnownClass string // non-empty: the input class of a recorded known finding (expected sat)
 	KnownWhat  string
+	Candidate  bool // model found only after dropping quantified assumptions
 }
 
 // InputSym names a symbol of the entry state whose model value is wanted.
@@ -470,7 +471,13 @@ func (c *Ctx) Observe(name string, t Term) {
 
 // Query renders the SMT-LIB text of an obligation, sliced to the symbols the
 // goal depends on (dropping assumptions is sound: it can only lose proofs).
-func (c *Ctx) Query(o *Obligation, withModel bool) string {
+func (c *Ctx) Query(o *Obligation, withModel bool) string { return c.query(o, withModel, false) }
+
+// QueryNoQuant drops quantified assumptions: a model of it is only a candidate
+// counterexample (to be confirmed by replay on the real code).
+func (c *Ctx) QueryNoQuant(o *Obligation) string { return c.query(o, true, true) }
+
+func (c *Ctx) query(o *Obligation, withModel bool, dropQuant bool) string {
 	rel := map[string]bool{}
 	symbolsOf(o.goal.S, rel)
 	n := o.logLen
@@ -557,6 +564,9 @@ func (c *Ctx) Query(o *Obligation, withModel bool) string {
 	}
 	for i := 0; i < n; i++ {
 		if include[i] {
+			if dropQuant && (strings.Contains(c.log[i].text, "(forall ") || strings.Contains(c.log[i].text, "(exists ")) {
+				continue
+			}
 			b.WriteString("(assert ")
 			b.WriteString(c.log[i].text)
 			b.WriteString(")\n")
